@@ -33,6 +33,10 @@ type InterfaceType struct {
 	TypePackage string
 	IsPointer   bool
 	IsVariadic  bool
+
+	// Type is the go/types type this description was loaded from (the element type
+	// for a variadic parameter); nil for hand-built models
+	Type types.Type
 }
 
 // LoadInterfaces loads specified interfaces from the analysis pass
@@ -166,9 +170,16 @@ func extractTypesFromTuple(tuple *types.Tuple, isVariadic bool) []InterfaceType 
 
 // convertTypesToInterfaceType converts types.Type to InterfaceType
 func convertTypesToInterfaceType(t types.Type) InterfaceType {
+	result := describeInterfaceType(t)
+	result.Type = t
+	return result
+}
+
+// describeInterfaceType fills the display fields of InterfaceType
+func describeInterfaceType(t types.Type) InterfaceType {
 	// Handle pointer
 	if ptr, ok := t.(*types.Pointer); ok {
-		inner := convertTypesToInterfaceType(ptr.Elem())
+		inner := describeInterfaceType(ptr.Elem())
 		inner.IsPointer = true
 		return inner
 	}
